@@ -11,6 +11,6 @@ for id in "${ids[@]}"; do
   git -C "$alt" apply "$d/patch.diff" || { echo "$id: patch does not apply"; continue; }
   out="$(cd /verif && VERIF_REPO="$alt" ./vcheck "$prop" "$tier" 2>&1)"; rc=$?
   classes="$(echo "$out" | grep -aE '^  class:' | sed 's/  class: //' | sort -u | tr '\n' ';' | cut -c1-200)"
-  if [ $rc -eq 1 ]; then echo "$id ($prop $tier): CAUGHT  $classes"; else echo "$id ($prop $tier): MISSED (exit $rc)"; fi
+  if [ $rc -eq 1 ]; then echo "$id ($prop $tier): CAUGHT  $classes"; else echo "$id ($prop $tier): MISSED (exit $rc)"; mkdir -p "${VERIF_ROOT_OUT:-/tmp/seed}/missed"; echo "$out" | tail -n 60 > "${VERIF_ROOT_OUT:-/tmp/seed}/missed/$id.log"; fi
 done
 /verif/tools/altrepo.sh >/dev/null
